@@ -2,6 +2,7 @@ package p2p
 
 import (
 	"encoding/binary"
+	"errors"
 	"io"
 	"math/rand/v2"
 	"net"
@@ -186,6 +187,11 @@ func (c *MultiConn) Send(topic lib.Topic, bz []byte) (ok bool) {
 	ok = stream.queueSends(packets, startTime, c.p2p.metrics)
 	if !ok {
 		c.log.Errorf("Packet(ID:%s) packet failed in queue for: %s", lib.Topic_name[int32(topic)], lib.BytesToTruncatedString(c.Address.PublicKey))
+		// a multi-packet message that failed part way may have left its first packets (no EOF) in the queue: the peer would
+		// merge the next message of this topic with them, so the connection must not carry anything further
+		if len(packets) > 1 {
+			c.Error(ErrFailedWrite(errors.New("message only partially queued")))
+		}
 	}
 	return
 }
